@@ -7,6 +7,7 @@ import (
 	"google.golang.org/protobuf/proto"
 	"strings"
 	"testing"
+	"time"
 
 	corev1 "k8s.io/api/core/v1"
 	metav1 "k8s.io/apimachinery/pkg/apis/meta/v1"
@@ -163,6 +164,12 @@ func c19Prop(c *sim.Case) {
 		case "set", "empty", "dropkey":
 			ctr++
 			data := map[string][]byte{"other-key": []byte("x")}
+			if kind == "dropkey" {
+				// the documented key is gone; what is left may look like it
+				if k := sim.PickStr(c, "dropkey.sibling", "", "", "client_secret", "CLIENT-SECRET", "clientSecret", "client-secret.bak", "client-secret-old", " client-secret"); k != "" {
+					data[k] = []byte(fmt.Sprintf("sibling-%d", ctr))
+				}
+			}
 			if kind == "set" {
 				// secrets from a few characters to a couple of hundred (generated keys, base64 of 64-128 random bytes)
 				val = fmt.Sprintf("value-%d-%s", ctr, strings.Repeat("s", sim.Tail(c, "vlen", 3, 220)))
@@ -188,9 +195,23 @@ func c19Prop(c *sim.Case) {
 			}
 		case "deleting":
 			if exists && cur.DeletionTimestamp.IsZero() {
-				cur.Finalizers = []string{"verif/hold"}
-				_ = kc.Update(ctx, cur)
-				_ = kc.Delete(ctx, cur) // with a finalizer this only sets the deletion timestamp
+				if sim.Weighted(c, "deleting.grace", 2, 1) == 1 {
+					// deleted with a grace period: the deletion time lies ahead, the object is terminating all the same
+					data := cur.Data
+					cur.Finalizers = nil
+					_ = kc.Update(ctx, cur)
+					_ = kc.Delete(ctx, cur)
+					ts := metav1.NewTime(time.Now().Add(time.Duration(1+sim.Pick(c, "deleting.grace.s", 3600)) * time.Second))
+					obj := &corev1.Secret{ObjectMeta: metav1.ObjectMeta{Name: key.Name, Namespace: key.Namespace, Finalizers: []string{"verif/hold"}, DeletionTimestamp: &ts}, Data: data}
+					if err := kc.Create(ctx, obj); err != nil {
+						panic(fmt.Sprintf("harness: cannot create a terminating Secret: %v", err))
+					}
+					c.Class("deleting-with-grace-period")
+				} else {
+					cur.Finalizers = []string{"verif/hold"}
+					_ = kc.Update(ctx, cur)
+					_ = kc.Delete(ctx, cur) // with a finalizer this only sets the deletion timestamp
+				}
 			}
 		case "delete":
 			if exists {
